@@ -494,6 +494,18 @@ func checkC13(reg *Registry, c tl2Admissible) pbt.Result {
 		}
 	}
 	dec := Create(it, c.Bytes)
+	exact := c.Cut%2 == 1 // half of the admissible cases end exactly at the end of the input
+	if exact && !expectReject {
+		rest, err := readTL2(dec, in)
+		if err != nil || len(rest) != 0 {
+			return pbt.Fail("%s: ReadTL2 rejects the admissible %s re-encoding %s (input ends with the object) of %s: %v (%d bytes left)", c.Item, c.Form, hexHead(in), hexHead(w), err, len(rest))
+		}
+		w2, err := tl2(dec, nil)
+		if err != nil || !eq(w2, w) {
+			return pbt.Fail("%s: %s re-encoding %s decodes to a different value: minimal encoding %s instead of %s (err %v)", c.Item, c.Form, hexHead(in), hexHead(w2), hexHead(w), err)
+		}
+		return pbt.Result{NonTrivial: true, Classes: []string{"form-" + c.Form, "ends-with-input"}}
+	}
 	rest, err := readTL2(dec, append(append([]byte{}, in...), trailingIf(!expectReject)...))
 	if expectReject {
 		if err == nil {
